@@ -1067,8 +1067,9 @@ class PDFType1Font(PDFSimpleFont):
         if "Encoding" not in spec and "FontFile" in descriptor:
             # try to recover the missing encoding info from the font file.
             self.fontfile = stream_value(descriptor.get("FontFile"))
-            length1 = int_value(self.fontfile["Length1"])
-            data = self.fontfile.get_data()[:length1]
+            data = self.fontfile.get_data()
+            if "Length1" in self.fontfile:
+                data = data[: int_value(self.fontfile["Length1"])]
             parser = Type1FontHeaderParser(BytesIO(data))
             self.cid2unicode = parser.get_encoding()
 
